@@ -33,6 +33,15 @@ def to_graph(mol):
     return g
 
 
+def result_graph(mol):
+    """the molecule as it must come back: 'kekule' (if given) replaces the written aromatic orders of rings that show
+    no delocalisation-induced equivalence (thiophene, furan, pyrrole: pysmiles returns them kekulised)"""
+    g = to_graph(mol)
+    for a, b, o in mol.get('kekule', []):
+        g.edges[a, b]['order'] = o
+    return g
+
+
 def mk(atoms, bonds):
     out = []
     for a in atoms:
@@ -108,6 +117,21 @@ def ring6(atoms, subst=()):
     return mk(a, bonds)
 
 
+def ring5(atoms, kek, subst=(), arom_h=()):
+    """five-membered hetero-aromatic ring written with aromatic symbols; kek = orders of ring bonds (i, i+1) as returned"""
+    a = list(atoms)
+    bonds = [(i, (i + 1) % 5, 1.5) for i in range(5)]
+    kekule = [[i, (i + 1) % 5, o] for i, o in enumerate(kek)]
+    for pos, el, o in subst:
+        a.append(el)
+        bonds.append((pos, len(a) - 1, o))
+    m = mk(a, bonds)
+    m['kekule'] = kekule
+    if arom_h:
+        m['arom_h'] = list(arom_h)
+    return m
+
+
 FEATURE = {
     'ethanolamine': mk(['O', 'C', 'C', 'N'], [(0, 1, 1), (1, 2, 1), (2, 3, 1)]),
     'acetate': mk(['C', 'C', 'O', ('O', -1)], [(0, 1, 1), (1, 2, 2), (1, 3, 1)]),
@@ -139,6 +163,13 @@ FEATURE = {
     'methylthiophenol': mk(['C', 'S'] + list('cccccc') + ['O'],
                            [(0, 1, 1), (1, 2, 1)] + [(2 + i, 2 + (i + 1) % 6, 1.5) for i in range(6)] + [(5, 8, 1)]),
     'anisole-N': mk(['C', 'N', 'C'] + list('cccccc'), [(0, 1, 1), (1, 2, 1), (1, 3, 1)] + [(3 + i, 3 + (i + 1) % 6, 1.5) for i in range(6)]),
+    # five-membered hetero-aromatics: heteroatom at position 0, bonds 0-1 1-2 2-3 3-4 4-0
+    'thiophene': ring5('scccc', (1, 2, 1, 2, 1)),
+    'methylthiophene': ring5('scccc', (1, 2, 1, 2, 1), [(1, 'C', 1)]),
+    'furan': ring5('occcc', (1, 2, 1, 2, 1)),
+    'pyrrole': ring5('ncccc', (1, 2, 1, 2, 1), arom_h=(0,)),
+    'methylpyrrole': ring5('ncccc', (1, 2, 1, 2, 1), [(0, 'C', 1)]),
+    'imidazole': ring5('ncncc', (1, 2, 1, 2, 1), arom_h=(0,)),
     'naphthalene': mk(list('cccccccccc'),
                       [(0, 1, 1.5), (1, 2, 1.5), (2, 3, 1.5), (3, 4, 1.5), (4, 5, 1.5), (5, 0, 1.5),
                        (4, 6, 1.5), (6, 7, 1.5), (7, 8, 1.5), (8, 9, 1.5), (9, 5, 1.5)]),
@@ -193,6 +224,8 @@ LABELS = 'abcdefghijklmnopqrstuvwxyz'
 def atom_text(mol, n, bracket_h=None):
     el, ch, ar = mol['atoms'][n]
     s = el.lower() if ar else el
+    if n in mol.get('arom_h', ()) and bracket_h is None:
+        bracket_h = 1           # [nH]: the hydrogen of a pyrrole-type nitrogen has to be written
     if ch or bracket_h is not None:
         h = ''
         if bracket_h:
@@ -364,7 +397,7 @@ def base_string(g):
 
 
 def model_hcounts(mol):
-    g = to_graph(mol)
+    g = result_graph(mol)
     out = {}
     for n in g:
         el, ch, ar = mol['atoms'][n]
@@ -383,7 +416,7 @@ def heavy_subgraph(aa):
 
 def compare_with_model(mol, aa, strict_orders=True):
     """None if the all-atom result is the model molecule (elements, charges, orders, hydrogens), else a class string"""
-    g = to_graph(mol)
+    g = result_graph(mol)
     H = heavy_subgraph(aa)
     if len(H) != len(g):
         return 'heavy-atom-count'
